@@ -201,6 +201,8 @@ def scenario_app(static_dir, variant, tlog):
               ('/raise404', raise404), ('/ret403', ret403), ('/boom', boom),
               ('/nonresp', lambda: 'just a string'),
               POST('/post', lambda: Response('posted')),
+              ('/item/<n:int>', lambda n: Response('item %d' % n)),
+              ('/ratio/<r:float>/<ns*int>', lambda r, ns: Response('ratio')),
               ('/static', StaticApplication(static_dir)),
               ('/_meta', MetaApplication()),
               ('/reroute', RerouteWSGI(target)),
@@ -215,7 +217,8 @@ def scenario_app(static_dir, variant, tlog):
 
 PATHS = ['/resp', '/empty', '/stream', '/ctx', '/ctx?format=json', '/json', '/text', '/branch/', '/branch', '/redir', '/raise404',
          '/ret403', '/boom', '/nonresp', '/post', '/static/a.txt', '/static/sub/bin.dat', '/static/empty', '/static/noext',
-         '/static/missing', '/static/../x', '/_meta/', '/_meta/json/', '/reroute', '/reroute_raise', '/unknown/url', '/']
+         '/static/missing', '/static/../x', '/_meta/', '/_meta/json/', '/reroute', '/reroute_raise', '/unknown/url', '/',
+         '/item/5', '/item/+ 5', '/item/abc', '/ratio/- .5/1/+ 2', '/ratio/1e5/1/2', '/item/' + '9' * 5000]
 HEADERS = [{}, {'Accept': 'text/html'}, {'Accept': 'application/json'}, {'Accept-Encoding': 'gzip'},
            {'Accept': 'application/xml', 'Accept-Encoding': 'gzip, deflate'}]
 METHODS = ['GET', 'HEAD', 'POST', 'OPTIONS']
@@ -318,7 +321,8 @@ def leg_wrappers(run, quick):
                         return wsgi_app(environ, start_response)
                     return wrapped
                 attrs['wsgi_wrapper'] = wrapper
-            classes[t] = type('Mw' + t, (Middleware,), attrs)
+            base_cls = cls_for('W1') if t == 'W2' else Middleware      # W2 is a SUBCLASS of W1: still its own type
+            classes[t] = type('Mw' + t, (base_cls,), attrs)
         return classes[t]
     recs = []
     tid = 0
@@ -372,33 +376,53 @@ def leg_reroute(run):
     from clastic import Application, RerouteWSGI, Response
     from werkzeug.test import create_environ
     tlog = []
-    target = target_app(tlog)
+    targets = {'teapot': ('418 I am a teapot', [('X-Target', 'yes'), ('Content-Type', 'text/x-teapot'), ('Content-Length', '6')], [b'tea', b'pot']),
+               'relredirect': ('302 Found', [('Location', 'relative/path?x=1'), ('Content-Length', '0')], []),
+               'notmodified': ('304 Not Modified', [('ETag', '"abc"'), ('Content-Type', 'text/plain'), ('Content-Length', '123'), ('X-Entity', 'kept')], []),
+               'dupheaders': ('200 Custom Reason', [('Set-Cookie', 'a=1'), ('Set-Cookie', 'b=2'), ('Content-Type', 'text/plain')], [b'x'])}
 
-    def raiser():
-        raise RerouteWSGI(target)
-    app = Application([('/as_endpoint/<p*>', RerouteWSGI(target)), ('/raised', raiser), ('/x', lambda: Response('x'))])
-    for path in ('/as_endpoint/a/b', '/raised', '/as_endpoint/'):
-        for m in ('GET', 'POST', 'HEAD'):
-            env = create_environ(path, method=m, headers={'X-Custom': 'v', 'Cookie': 'a=b'}, query_string='q=1')
-            before = dict((k, env[k]) for k in env if isinstance(env[k], str))
-            del tlog[:]
-            ev, status, headers, body = drive(app, env)
-            run.evaluations += 1
-            ctx = {'leg': 'L2', 'path': path, 'method': m}
-            if not tlog:
-                run.violation('reroute-target-not-called', '%s %s' % (m, path), ctx)
-                continue
-            t = tlog[-1]
-            if t['environ_id'] != id(env):
-                run.violation('reroute-different-environ-object', '%s %s: target received another environ object' % (m, path), ctx)
-            changed = [k for k in before if t['keys'].get(k) != before[k]]
-            if changed:
-                run.violation('reroute-environ-entries-changed', '%s %s: entries changed %r' % (m, path, changed), ctx)
-            if status != '418 I am a teapot' or ('X-Target', 'yes') not in headers or body != (b'' if m == 'HEAD' else b'teapot'):
-                run.violation('reroute-response-not-verbatim', '%s %s: relayed %r %r %r' % (m, path, status, headers, body), ctx)
-            else:
-                run.traces += 1
-                run.nontrivial.add('reroute:%s:%s' % (path, m))
+    def make_target(name):
+        status_, headers_, body_ = targets[name]
+
+        def target(environ, start_response):
+            tlog.append({'environ_id': id(environ), 'keys': dict((k, environ[k]) for k in environ if isinstance(environ[k], str))})
+            start_response(status_, list(headers_))
+            return [] if environ['REQUEST_METHOD'] == 'HEAD' else list(body_)
+        return target
+    routes = []
+    for name in targets:
+        t = make_target(name)
+        routes.append(('/as_endpoint/%s/<p*>' % name, RerouteWSGI(t)))
+
+        def raiser(t=t):
+            raise RerouteWSGI(t)
+        routes.append(('/raised/%s' % name, raiser))
+    app = Application(routes + [('/x', lambda: Response('x'))])
+    for name, (status_, headers_, body_) in targets.items():
+        for path in ('/as_endpoint/%s/a/b' % name, '/raised/%s' % name, '/as_endpoint/%s/' % name):
+            for m in ('GET', 'POST', 'HEAD'):
+                env = create_environ(path, method=m, headers={'X-Custom': 'v', 'Cookie': 'a=b'}, query_string='q=1')
+                before = dict((k, env[k]) for k in env if isinstance(env[k], str))
+                del tlog[:]
+                ev, status, headers, body = drive(app, env)
+                run.evaluations += 1
+                ctx = {'leg': 'L2', 'path': path, 'method': m, 'target': name}
+                if not tlog:
+                    run.violation('reroute-target-not-called', '%s %s' % (m, path), ctx)
+                    continue
+                t = tlog[-1]
+                if t['environ_id'] != id(env):
+                    run.violation('reroute-different-environ-object', '%s %s: target received another environ object' % (m, path), ctx)
+                changed = [k for k in before if t['keys'].get(k) != before[k]]
+                if changed:
+                    run.violation('reroute-environ-entries-changed', '%s %s: entries changed %r' % (m, path, changed), ctx)
+                want_body = b'' if m == 'HEAD' else b''.join(body_)
+                if status != status_ or headers != list(headers_) or body != want_body:
+                    run.violation('reroute-response-not-verbatim:%s' % name, '%s %s: relayed %r %r %r, target sent %r %r'
+                                  % (m, path, status, headers, body, status_, headers_), ctx)
+                else:
+                    run.traces += 1
+                    run.nontrivial.add('reroute:%s:%s' % (path, m))
 
 
 def leg_repo_suite(run):
